@@ -145,7 +145,7 @@ structure St where
   srcs : List (String × SrcSpec)
   params : List (String × String)
   mach : Option Mach
-  join : JoinSt
+  join : JDrv
 
 def St.src (st : St) (k : String) : Option SrcSpec := st.srcs.lookup k
 def St.natSrc (st : St) (k : String) : Option (Src Nat × (Src Nat → Hint)) := do
@@ -287,7 +287,7 @@ def stepC11 (st : St) (ws : List String) : St × String :=
     | none => (st, "bad-op")
   | _, _ => (st, "bad-op")
 
-def initSt : St := ⟨[], [], none, JoinSt.init⟩
+def initSt : St := ⟨[], [], none, JDrv.init⟩
 
 def step (mode : String) (st : St) (line : String) : String × St × String :=
   let l := line.trimAscii.toString
